@@ -298,7 +298,7 @@ fn run_c08(ctx: &Ctx) -> Run {
             if rng.below(64) == 0 {
                 crate::orc::failed_call_history(&mut rng);
             }
-            let flavour = *rng.pick(&["antichain", "complete", "multiroot", "lowres", "lowres", "overlap", "overlap", "ancestors", "lookalike", "lookalike", "spine", "sized", "ends"]);
+            let flavour = *rng.pick(&["antichain", "complete", "multiroot", "lowres", "lowres", "overlap", "overlap", "ancestors", "lookalike", "lookalike", "spine", "sized", "ends", "border"]);
             if rng.chance(0.1) {
                 // history: a call that fails half way (a complete sibling group on a face that does not exist, after some valid
                 // cells) must leave nothing behind for the next call on this thread
@@ -341,7 +341,7 @@ fn run_c10(ctx: &Ctx) -> Run {
             if rng.below(64) == 0 {
                 crate::orc::failed_call_history(&mut rng);
             }
-            let flavour = *rng.pick(&["antichain", "complete", "multiroot", "lowres", "lowres", "lookalike", "spine", "sized", "ends"]);
+            let flavour = *rng.pick(&["antichain", "complete", "multiroot", "lowres", "lowres", "lookalike", "spine", "sized", "ends", "border"]);
             if rng.chance(0.1) {
                 // history: a call that fails half way must leave nothing behind for the next call on this thread
                 let mut hostile: Vec<u64> = gen::cell_set(&mut rng, "antichain").iter().take(20).map(|c| encode(*c)).collect();
